@@ -163,6 +163,11 @@ def Instance(qual, **k):
     return Shape("instance", qual, **k)
 
 
+def AssocOf(*pairs):
+    """dict with the given (key shape, value shape) entries (keys of any shape, distinct)"""
+    return Shape("assoc", *pairs)
+
+
 def MapOf(k, v):
     return Shape("map", k, v)
 
